@@ -108,6 +108,7 @@ def ns_job(job) -> dict:
 def run(ctx) -> None:
     L = 3 if ctx.quick else 4
     jobs = RT.core_jobs(L, parts=4 if ctx.quick else 16) + RT.entry_jobs(2 if ctx.quick else 3)
+    jobs += RT.scale_jobs()
     expected = RT.expected_cases(jobs)
     try:
         from mc import rtrdflib  # noqa: PLC0415
